@@ -453,6 +453,10 @@ func (c *checker) serverScenario(sc scenario, only *replayCase, rng *vlib.Rng) {
 				cur = &presented{cur.Cert, rep.IAT}
 			}
 		}
+		// ---- S: what this start presents = what it leaves behind = what the next start presents
+		if rep.OK {
+			c.consistency(sc, si, st, rep, after)
+		}
 		// ---- S: a refused start must not change what later starts present
 		if !rep.OK && cur != nil {
 			c.refusedProbe(sc, si, st, rep, before, after, *cur)
@@ -518,6 +522,60 @@ func (c *checker) serverScenario(sc scenario, only *replayCase, rng *vlib.Rng) {
 }
 
 // validSeed: drbg.SeedFromHex accepts any hex text of at least 24 bytes (and truncates it).
+// consistency: a successful start must (a) honour a valid iat-mode argument, (b) run with the
+// mode it advertises, (c) leave a state file that describes exactly the advertised identity,
+// (d) leave a bridge-line file with exactly the advertised client arguments, and (e) be followed
+// by a plain start (probed on a copy of the directory) that presents the same cert and iat-mode.
+func (c *checker) consistency(sc scenario, si int, st step, rep reply, after map[string][]byte) {
+	trunc := scenario{Kind: sc.Kind, Steps: append([]step(nil), sc.Steps[:si+1]...)}
+	rc := replayCase{Type: "sequence", Scenario: &trunc, Step: si,
+		Note: fmt.Sprintf("start %d (args %v) presents cert=%s iat-mode=%s; compared with the state file / bridge-line file it leaves and with the next start without arguments", si, st.Args, rep.Cert, rep.IAT)}
+	who := fmt.Sprintf("start %d (args %v, %s)", si, st.Args, map[bool]string{true: "first start on an empty directory", false: "restart"}[si == 0])
+	if v, ok := st.Args["iat-mode"]; ok && (v == "0" || v == "1" || v == "2") && rep.IAT != v {
+		c.r.Violate("iat-override-not-applied", "impl-oracle",
+			fmt.Sprintf("%s advertises iat-mode=%s although iat-mode=%s was requested", who, rep.IAT, v), rc)
+	}
+	if rep.InUse != "" && rep.InUse != rep.IAT {
+		c.r.Violate("iat-mode-in-use-differs-from-advertised", "impl-oracle",
+			fmt.Sprintf("%s advertises iat-mode=%s but runs with iat mode %s", who, rep.IAT, rep.InUse), rc)
+	}
+	if r := completeRec(after[stateFile]); r == nil {
+		c.r.Violate("presented-identity-not-persisted", "impl-oracle",
+			fmt.Sprintf("%s succeeds but leaves no complete state file (%d bytes)", who, len(after[stateFile])), rc)
+	} else if p := r.presented(); p.Cert != rep.Cert || p.IAT != rep.IAT {
+		c.r.Violate("presented-differs-from-persisted-state", "impl-oracle",
+			fmt.Sprintf("%s presents cert=%s iat-mode=%s but the state file it leaves says cert=%s iat-mode=%s", who, rep.Cert, rep.IAT, p.Cert, p.IAT), rc)
+	}
+	line := ""
+	for _, ln := range strings.Split(string(after[bridgeFile]), "\n") {
+		if strings.HasPrefix(ln, "Bridge ") {
+			line = ln
+		}
+	}
+	if want := fmt.Sprintf("cert=%s iat-mode=%s", rep.Cert, rep.IAT); !strings.HasSuffix(line, " "+want) {
+		c.r.Violate("bridge-line-file-differs-from-presented", "impl-oracle",
+			fmt.Sprintf("%s presents %s but the bridge-line file it leaves reads %q", who, want, line), rc)
+	}
+	dir := c.mkdir()
+	defer os.RemoveAll(dir)
+	if err := writeDir(dir, after); err != nil {
+		panic(err)
+	}
+	probe, _, err := runHelper(request{Cmd: "server", Dir: dir}, false, c.scratch)
+	if err != nil {
+		c.r.Violate("helper-failed", "correspondence", err.Error(), rc)
+		return
+	}
+	c.r.Case(fmt.Sprintf("consistency|%s|%v", dirText(after), st.Args), true)
+	c.r.Validated(1)
+	c.r.Count("presented_vs_next", map[bool]string{true: "first-start", false: "restart"}[si == 0]+":"+argClass(st.Args))
+	if !probe.OK || probe.Cert != rep.Cert || probe.IAT != rep.IAT {
+		c.r.Violate("next-start-presents-different-arguments", "impl-oracle",
+			fmt.Sprintf("%s presents cert=%s iat-mode=%s but the next start without arguments presents %s", who, rep.Cert, rep.IAT,
+				map[bool]string{true: "cert=" + probe.Cert + " iat-mode=" + probe.IAT, false: "an error: " + probe.Err}[probe.OK]), rc)
+	}
+}
+
 func validSeed(s string) bool {
 	b, err := hex.DecodeString(s)
 	return err == nil && len(b) >= 24
@@ -1436,7 +1494,7 @@ func randomServerScenario(rng *vlib.Rng, n int) scenario {
 		st := step{Seed: rng.U64() | 1}
 		st.Args = map[string]string{}
 		switch c := rng.Intn(12) - 4; {
-		case i == 0 && c < 4, c < -1:
+		case i == 0 && c < 1, c < -1:
 			// no arguments
 		case c < 2:
 			st.Args["iat-mode"] = strconv.Itoa(rng.Intn(3))
@@ -1656,6 +1714,15 @@ func main() {
 		{},
 		}}
 	c.serverScenario(refusedSc, nil, rng.Fork())
+
+	// 1b'. the first start on an empty directory with each override and without, then plain starts
+	for i, ov := range []string{"", "0", "1", "2"} {
+		st0 := step{Seed: r.Seed*2 + 11 + uint64(2*i)}
+		if ov != "" {
+			st0.Args = map[string]string{"iat-mode": ov}
+		}
+		c.serverScenario(scenario{Kind: "server", Steps: []step{st0, {}, {}}}, nil, rng.Fork())
+	}
 
 	// 1c. I/O faults: failing / short writes at a dense sample of offsets
 	c.faultFamily(rng.Fork())
